@@ -139,6 +139,70 @@ def run(ctx):
         ctx.inst("R06.3", "least-favourable-pnl:%s" % nm, bad is None and seen == {"Twap", "SpotPrice"}, qa.fn.where(),
                  bad or "%d paths: TWAP figures iff |spot pnl| > |twap pnl|" % n)
 
+    # ---------------------------------------------------------------- R06.7
+    # both functions that produce a margin ratio (the MarginRatio query and the per-option one Liquidate uses for the
+    # oracle price) return ((remain.margin - remain.bad_debt) * decimals) / notional, where remain is the remain-margin
+    # result of (the loaded position, the pnl of the figures chosen) - funding owed is part of every ratio
+    ctx.rule("R06.7", "every margin-ratio function returns ((remain_margin.margin - remain_margin.bad_debt) * decimals) / notional with remain_margin charged with the chosen pnl (funding included)", 2)
+    n7 = 0
+    # anchors by use: the ratio functions are the ones the MarginRatio query arm and the Liquidate handler call
+    ratio_users = set()
+    try:
+        mra = arms.Arm(ix, ENG, "MarginRatio", entry="query")
+        for q in mra.ok_paths():
+            ratio_users.update(e.target.key for e in q.events if e.target is not None)
+        ratio_users.add(mra.fn.key)
+    except KeyError as e:
+        ctx.lost("R06.7", str(e))
+    for q in ex.ok_paths():
+        ratio_users.update(e.target.key for e in q.events if e.target is not None)
+    for f in sorted(ctx.world.crate_fns(ENG), key=lambda f: f.pretty):
+        if f.derived or "::_::" in f.pretty or f.kind == "Closure" or f.arg_count < 3 or f.key not in ratio_users:
+            continue
+        if not f.locals[0]["ty"].replace(" ", "").endswith("Integer,cosmwasm_std::StdError>"):
+            continue
+        tys = [f.locals[i + 1]["ty"] for i in range(f.arg_count)]
+        if sum(1 for t in tys if t.endswith("String")) != 2 or not any("Deps" in t for t in tys):
+            continue
+        try:
+            oks = ix.ok_paths(f)
+        except Exception:
+            continue
+        bad = None
+        live = 0
+        for q in oks:
+            r = N(ix, sym.unwrap(q.ret))
+            if r == ("pos", ("int", 0)) or r == ("int", 0):
+                continue   # the zero-size early return
+            live += 1
+            rms = em.remain_margin_calls(q)
+            if not rms:
+                bad = bad or "a path computes the ratio without the remain-margin (funding) computation: returns %s" % norm.show(r)[:200]
+                continue
+            rmv = ix.inline(sym.unwrap(rms[-1].result))
+            mleaf = hole("rm.margin", lambda v, rmv=rmv: ix.inline(v) == ix.inline(sym.field(rmv, "margin")))
+            bleaf = hole("rm.bad_debt", lambda v, rmv=rmv: ix.inline(v) == ix.inline(sym.field(rmv, "bad_debt")))
+            WANT = ("idiv", ("imul", ("isub", ("pos", mleaf), ("pos", bleaf)), ("pos", em.cfg_leaf("decimals"))), ("pos", anyhole("notional")))
+            b = match(WANT, r)
+            if b is None:
+                bad = bad or "returns %s" % norm.show(r)[:240]
+                continue
+            # the remain-margin call is charged with the pnl that belongs to the notional in the denominator
+            pnl_arg = ix.inline(rms[-1].args[2]) if len(rms[-1].args) > 2 else None
+            den = ix.inline(b["notional"]) if not isinstance(b["notional"], tuple) else None
+            ok_pair = False
+            for e in q.events:
+                if e.target is not None and "PositionUnrealizedPnlResponse" in e.target.locals[0]["ty"]:
+                    res = sym.unwrap(e.result)
+                    if pnl_arg == ix.inline(sym.field(res, "unrealized_pnl")) and (den is None or den == ix.inline(sym.field(res, "position_notional"))):
+                        ok_pair = True
+            if not ok_pair:
+                bad = bad or "remain-margin is not charged with the unrealized pnl of the figures whose notional is the denominator"
+        if live == 0:
+            continue
+        n7 += 1
+        ctx.inst("R06.7", "ratio-tree:%s" % short_fn(f), bad is None, f.where(), bad or "%d non-trivial paths return ((rm.margin - rm.bad_debt) * decimals) / notional, rm = remain-margin(position, pnl of the same figures)" % live)
+
     # ---------------------------------------------------------------- R06.4
     try:
         sa = arms.Arm(ix, VAMM, "IsOverSpreadLimit", entry="query")
